@@ -113,7 +113,7 @@ def run_segmented(conc_name, rng, end_t=6, warm_t=1, maxev=14):
     trace, errors = [], []
     rank = [1]
     objs = {}
-    cur = {"b": None, "inc": None}
+    cur = {"b": None, "inc": None, "step": False}
 
     def sched(by, kind, d, p, model):
         try:
@@ -173,7 +173,10 @@ def run_segmented(conc_name, rng, end_t=6, warm_t=1, maxev=14):
                     errors.append(f"WARMUP stamped {event.timestamp} at simulator time {sim.simulator_time}")
                 self.act(0.6)
             elif ty == Simulator.START_EVENT:
-                trace.append({"a": "Start", "ts": c.back(event.timestamp), "b": cur["b"], "inc": cur["inc"]})
+                if cur["step"]:
+                    trace.append({"a": "StepStart", "ts": c.back(event.timestamp)})
+                else:
+                    trace.append({"a": "Start", "ts": c.back(event.timestamp), "b": cur["b"], "inc": cur["inc"]})
                 self.act(0.6)
             elif ty == Simulator.STOP_EVENT:
                 trace.append({"a": "Stop", "ts": c.back(event.timestamp)})
@@ -185,19 +188,24 @@ def run_segmented(conc_name, rng, end_t=6, warm_t=1, maxev=14):
         lst = L(m)
         for ty in (Simulator.TIME_CHANGED_EVENT, ReplicationInterface.WARMUP_EVENT, Simulator.START_EVENT, Simulator.STOP_EVENT):
             sim.add_listener(ty, lst)
-        for _ in range(4 * end_t + 8):
+        for _ in range(4 * end_t + 8 + 2 * maxev):
             if sim.run_state.name == "ENDED":
                 break
             now = c.back(sim.simulator_time)
-            if now == dd.BAD or now >= end_t:
+            if now == dd.BAD or now > end_t:
                 errors.append(f"simulator neither ended nor before the end: time {sim.simulator_time}, state {sim.run_state.name}")
                 break
+            if now == end_t:
+                break       # a step() executed an event AT the end: STOPPED with the clock at the end, every further start / step is refused (RunListeners: no action enabled)
             r = rng.random()
             b = end_t if r < 0.2 else rng.randint(now, end_t)
             inc = rng.random() < 0.5
-            cur["b"], cur["inc"] = b, inc
+            cur["b"], cur["inc"], cur["step"] = b, inc, False
             try:
-                if r < 0.1:
+                if 0.2 <= r < 0.45:
+                    cur["step"] = True
+                    sim.step()
+                elif r < 0.1:
                     cur["b"], cur["inc"] = end_t, True
                     sim.start()
                 elif inc:
